@@ -164,6 +164,35 @@ type sysRun struct {
 	tolerateBadOpts bool
 	sigKilled       bool
 	stageLines      []int // records written after stage k
+	minWindowSteps  int   // fewest scheduler steps in any 1 s window of the last settle attempt
+	procsAtSettle   int   // size of the process table when that attempt began
+}
+
+// checkSpin: bounded liveness once the faults have stopped. Nothing external is pending (no key or
+// signal on its way, no child process alive, standard input at its end or closed), yet for two simulated
+// minutes fzf kept at least one goroutine spinning (a lone spinning goroutine is fast-forwarded and still
+// takes thousands of steps per simulated second; a session at rest takes a few dozen per spinner tick, a few
+// hundred while the "reading" spinner is redrawn): that is a livelock
+// - some component waits for something that will never happen - not a search or a render in progress.
+func (r *sysRun) checkSpin() {
+	if r.minWindowSteps < 1000 || r.done {
+		return
+	}
+	procs := r.os.Snapshot()
+	if len(procs) != r.procsAtSettle {
+		// commands were started meanwhile (e.g. a load:reload(...) binding feeding itself): the user's loop, not fzf's
+		return
+	}
+	for _, p := range procs {
+		if p.Alive {
+			return
+		}
+	}
+	if !r.plan.NoStdin && !(r.in.eofSeen || r.in.isClosed()) {
+		return
+	}
+	r.c.violate("sys.spin", "nothing external is pending (no live child process, input at its end, user idle) but fzf kept spinning: at least %d scheduler steps in every simulated second for two minutes; parked=%v\n%s",
+		r.minWindowSteps, r.sim.Parked(), blockedStacks())
 }
 
 // fedLines is the number of input records the stdin producer has written so far.
@@ -575,11 +604,20 @@ func spinnerFree(d string) string {
 func (r *sysRun) settle(maxWindows int) (settled bool, out zsim.Outcome) {
 	stable := 0
 	last := ""
+	r.minWindowSteps = -1
+	r.procsAtSettle = len(r.os.Snapshot())
 	for w := 0; w < maxWindows; w++ {
 		stepsBefore := r.sim.Stats.Steps
 		out = r.sim.Run(time.Second, 4000000, r.sim.Now()+time.Second)
 		if r.done || out == zsim.OutOfSteps {
 			return false, out
+		}
+		if len(r.os.Snapshot())-r.procsAtSettle > 300 {
+			// self-feeding bindings: commands are started without end, waiting longer only costs wall-clock
+			return false, out
+		}
+		if ws := r.sim.Stats.Steps - stepsBefore; r.minWindowSteps < 0 || ws < r.minWindowSteps {
+			r.minWindowSteps = ws
 		}
 		d := r.digest()
 		// a goroutine parked at a yield is runnable: pending work (only the 100 ms spinner may be caught here by chance)
@@ -625,6 +663,13 @@ func (r *sysRun) drive() bool {
 		if !settled {
 			// two simulated minutes without the state coming to rest
 			if r.userWait || r.userDone {
+				if len(r.os.Snapshot())-r.procsAtSettle > 100 {
+					// the configuration feeds itself (load:reload(...) and the like) and will never come to
+					// rest: nothing more to learn from waiting; ctrl-c must still end the session
+					c.count("probe.self_feeding_bindings", 1)
+					return true
+				}
+				r.checkSpin()
 				if r.userWait {
 					r.settleN++
 				}
